@@ -1,0 +1,209 @@
+//go:build verif
+
+package scorch
+
+import (
+	"path/filepath"
+	"sort"
+	"sync/atomic"
+
+	segment "github.com/blevesearch/scorch_segment_api/v2"
+)
+
+// Instrumentation for the /verif trace-acceptance harness (build tag verif only).
+// Every hook reports an event to the registered controller, synchronously, on the goroutine
+// that performs the step; the controller may record, delay, gate or kill the process.
+
+type VerifSeg struct {
+	ID      uint64   `json:"id"`
+	Count   uint64   `json:"count"`
+	Deleted []uint32 `json:"deleted"`
+	File    string   `json:"file,omitempty"` // base name when the segment is file-backed
+}
+
+type VerifTask struct {
+	New      uint64     `json:"new"`
+	NewNil   bool       `json:"new_nil,omitempty"` // no merged segment was produced
+	Captured []VerifSeg `json:"captured"`          // captured SegmentSnapshots (deleted as of capture)
+	Skipped  bool       `json:"skipped,omitempty"`
+}
+
+type VerifEvent struct {
+	Kind      string            `json:"kind"`
+	Path      string            `json:"path,omitempty"`
+	Epoch     uint64            `json:"epoch"`
+	IDs       []string          `json:"ids,omitempty"`
+	NewSegID  uint64            `json:"new_seg,omitempty"`
+	NewDocIDs []string          `json:"new_docs,omitempty"`
+	Internal  map[string][]byte `json:"internal,omitempty"`
+	IntDel    []string          `json:"internal_deleted,omitempty"`
+	Tasks     []VerifTask       `json:"tasks,omitempty"`
+	FileMerge bool              `json:"file_merge,omitempty"`
+	Persisted []uint64          `json:"persisted,omitempty"`
+	Root      []VerifSeg        `json:"root,omitempty"`
+	Name      string            `json:"name,omitempty"`
+	Args      []uint64          `json:"args,omitempty"`
+}
+
+var verifCtl atomic.Value // func(*VerifEvent)
+
+// VerifSetController installs (or, with nil, removes) the event controller.
+func VerifSetController(f func(*VerifEvent)) {
+	if f == nil {
+		f = func(*VerifEvent) {}
+	}
+	verifCtl.Store(f)
+}
+
+func verifEmit(ev *VerifEvent) {
+	if f, ok := verifCtl.Load().(func(*VerifEvent)); ok && f != nil {
+		f(ev)
+	}
+}
+
+func verifEnabled() bool {
+	f, ok := verifCtl.Load().(func(*VerifEvent))
+	return ok && f != nil
+}
+
+func verifSegOf(ss *SegmentSnapshot) VerifSeg {
+	v := VerifSeg{ID: ss.id, Count: ss.segment.Count()}
+	if ss.deleted != nil {
+		v.Deleted = ss.deleted.ToArray()
+	}
+	if ps, ok := ss.segment.(segment.PersistedSegment); ok {
+		v.File = filepath.Base(ps.Path())
+	}
+	return v
+}
+
+func verifRoot(snap *IndexSnapshot) []VerifSeg {
+	rv := make([]VerifSeg, 0, len(snap.segment))
+	for _, ss := range snap.segment {
+		rv = append(rv, verifSegOf(ss))
+	}
+	return rv
+}
+
+// verifPoint marks a named step (crash / delay / gate points).
+func verifPoint(s *Scorch, name string, args ...uint64) {
+	if !verifEnabled() {
+		return
+	}
+	verifEmit(&VerifEvent{Kind: "point", Path: s.path, Name: name, Args: args})
+}
+
+func verifIntroduceSegment(s *Scorch, next *segmentIntroduction, snap *IndexSnapshot) {
+	if !verifEnabled() {
+		return
+	}
+	ev := &VerifEvent{Kind: "introduce", Path: s.path, Epoch: snap.epoch, IDs: next.ids, Root: verifRoot(snap)}
+	if next.data != nil {
+		ev.NewSegID = next.id
+		n := next.data.Count()
+		for i := uint64(0); i < n; i++ {
+			id, err := next.data.DocID(i)
+			if err != nil {
+				id = []byte("?")
+			}
+			ev.NewDocIDs = append(ev.NewDocIDs, string(id))
+		}
+	}
+	for k, v := range next.internal {
+		if v == nil {
+			ev.IntDel = append(ev.IntDel, k)
+		} else {
+			if ev.Internal == nil {
+				ev.Internal = map[string][]byte{}
+			}
+			ev.Internal[k] = v
+		}
+	}
+	sort.Strings(ev.IntDel)
+	verifEmit(ev)
+}
+
+func verifPersistedIDs(m map[uint64]segment.Segment) []uint64 {
+	rv := make([]uint64, 0, len(m))
+	for id := range m {
+		rv = append(rv, id)
+	}
+	sort.Slice(rv, func(i, j int) bool { return rv[i] < rv[j] })
+	return rv
+}
+
+func verifIntroducePersist(s *Scorch, ids []uint64, snap *IndexSnapshot) {
+	if !verifEnabled() {
+		return
+	}
+	verifEmit(&VerifEvent{Kind: "persist_intro", Path: s.path, Epoch: snap.epoch, Persisted: ids, Root: verifRoot(snap)})
+}
+
+type verifMergeInfo struct {
+	tasks []VerifTask
+	file  bool
+}
+
+// verifMergeTasks snapshots a segmentMerge's tasks (introduceMerge consumes mergedSegHistory).
+func verifMergeTasks(sm *segmentMerge) *verifMergeInfo {
+	info := &verifMergeInfo{file: sm.fileMerge, tasks: make([]VerifTask, len(sm.newSegmentIDs))}
+	for i := range sm.newSegmentIDs {
+		info.tasks[i].New = sm.newSegmentIDs[i]
+		info.tasks[i].NewNil = sm.newSegments[i] == nil
+	}
+	type ent struct {
+		id uint64
+		h  *mergedSegmentHistory
+	}
+	var ents []ent
+	for id, h := range sm.mergedSegHistory {
+		if h != nil {
+			ents = append(ents, ent{id, h})
+		}
+	}
+	// captured segments of one task in merge order = increasing first new doc number
+	sort.Slice(ents, func(i, j int) bool {
+		a, b := ents[i], ents[j]
+		if a.h.batchID != b.h.batchID {
+			return a.h.batchID < b.h.batchID
+		}
+		return verifFirstNew(a.h) < verifFirstNew(b.h)
+	})
+	for _, e := range ents {
+		info.tasks[e.h.batchID].Captured = append(info.tasks[e.h.batchID].Captured, verifSegOf(e.h.oldSegment))
+	}
+	return info
+}
+
+func verifFirstNew(h *mergedSegmentHistory) uint64 {
+	min := ^uint64(0)
+	for old, n := range h.oldNewDocIDs {
+		if h.oldSegment.deleted != nil && h.oldSegment.deleted.Contains(uint32(old)) {
+			continue
+		}
+		if n < min {
+			min = n
+		}
+	}
+	return min
+}
+
+func verifMergeStart(s *Scorch, epoch uint64, sm *segmentMerge) {
+	if !verifEnabled() {
+		return
+	}
+	info := verifMergeTasks(sm)
+	verifEmit(&VerifEvent{Kind: "merge_start", Path: s.path, Epoch: epoch, Tasks: info.tasks, FileMerge: info.file})
+}
+
+func verifIntroduceMerge(s *Scorch, info *verifMergeInfo, skipped []bool, snap *IndexSnapshot) {
+	if !verifEnabled() || info == nil {
+		return
+	}
+	for i := range info.tasks {
+		if i < len(skipped) {
+			info.tasks[i].Skipped = skipped[i]
+		}
+	}
+	verifEmit(&VerifEvent{Kind: "merge_finish", Path: s.path, Epoch: snap.epoch, Tasks: info.tasks, FileMerge: info.file, Root: verifRoot(snap)})
+}
